@@ -433,7 +433,7 @@ func reachableNames(src, fn string) map[string]bool {
 		names := declName(d)
 		m := map[string]bool{}
 		ast.Inspect(d, func(n ast.Node) bool {
-			if id, ok := n.(*ast.Ident); ok && top[id.Name] {
+			if id, ok := n.(*ast.Ident); ok && id.Name != "_" && top[id.Name] {
 				m[id.Name] = true
 			}
 			return true
